@@ -163,6 +163,13 @@ def structured_families():
     fams.append(("fan-mixed", [T("s%d" % i, par=(i % 3 != 0)) for i in range(7)] + [T("top", "group", ["s%d" % i for i in range(7)])], "//:top"))
     fams.append(("deep-shared", [T("z"), T("y", deps=["z"]), T("x", deps=["y", "z"]), T("w", deps=["x", "z", "y"]), T("v", "group", ["w", "y"]), T("u", deps=["v", "z"])], "//:u"))
     fams.append(("group-mid", [T("l1", par=True), T("l2", par=True), T("g", "group", ["l1", "l2"]), T("m", "combine", ["l1", "l2"]), T("r", deps=["g", "m"])], "//:r"))
+    # synchronisation points (group / combine) stacked on each other, with processes below that are still running
+    for par in (False, True):
+        sfx = "-par" if par else "-seq"
+        fams.append(("combine-over-group" + sfx, [T("l1", par=par), T("l2", "run_experiment", par=par), T("y", par=par), T("g", "group", ["l1", "l2"]), T("m", "combine", ["g", "y"]), T("r", deps=["m"], par=par)], "//:r"))
+        fams.append(("combine-over-combine" + sfx, [T("l1", par=par), T("l2", "run_experiment", par=par), T("y", "run_experiment", par=par), T("m1", "combine", ["l1", "l2"]), T("m2", "combine", ["y", "m1"]), T("r", deps=["m2"], par=par)], "//:r"))
+        fams.append(("group-of-groups" + sfx, [T("l1", par=par), T("l2", par=par), T("l3", par=par), T("g1", "group", ["l1"]), T("g2", "group", ["g1", "l2"]), T("g3", "group", ["l3", "g2"]), T("r", "run_experiment", deps=["g3"], par=par)], "//:r"))
+        fams.append(("combine-of-only-a-group" + sfx, [T("l1", par=par), T("l2", par=par), T("g", "group", ["l1", "l2"]), T("m", "combine", ["g"]), T("r", deps=["m", "l1"], par=par)], "//:r"))
     fams.append(("single", [T("only", "run_experiment")], "//:only"))
     fams.append(("group-only", [T("g0", "group")], "//:g0"))
     return fams
